@@ -81,6 +81,8 @@ type schedSim struct {
 	yields     uint64
 	// noAccessTracking: the interleaved-instances worlds compare results, not accesses
 	noAccessTracking bool
+	sinceSwitch      int
+	livelock         bool
 }
 
 func newSchedSim(c *core.Ctx, preemptDen uint64) *schedSim {
@@ -186,6 +188,7 @@ func (s *schedSim) pickAfterStop() {
 
 func (s *schedSim) noteSwitch(next *simThread, site int) {
 	s.switches++
+	s.sinceSwitch = 0
 	s.fp = core.Mix(s.fp ^ uint64(next.id)<<32 ^ uint64(uint32(site)))
 }
 
@@ -196,20 +199,42 @@ func (s *schedSim) yield(site int) {
 		return
 	}
 	s.yields++
+	s.sinceSwitch++
 	if s.yields > 40_000_000 {
-		panic("verif: yield budget exhausted (livelock?)")
-	}
-	if s.den <= 1 {
-		return
+		// every thread has had its turns (see the fairness rule below) and still nothing finishes
+		s.c.Violate("progress", s.c.Property+"/no-progress/threads-spin-forever", "40 million preemption points passed without the simulated threads finishing, under a fair schedule: the operations do not terminate (livelock)")
+		s.livelock = true
+		s.cur = nil
+		uninstallSched()
+		s.done <- struct{}{}
+		select {} // this goroutine, like the parked ones, is abandoned
 	}
 	nr := s.countRunnable(me)
 	if nr == 0 {
 		return
 	}
-	if s.c.T.Draw(s.den) != 1 {
-		return
+	var next *simThread
+	if s.sinceSwitch > 5000 {
+		// fairness: a thread that has passed 5000 preemption points in a row (a spin-wait on something
+		// another thread must do) is descheduled, as any real scheduler eventually does; round robin,
+		// not drawn, so a replay tape of any length behaves the same
+		next = s.nthRunnable(me, 0)
+		for _, th := range s.threads {
+			if th.id > me.id && th.state == thRunnable {
+				next = th
+				break
+			}
+		}
+		s.c.Fault("forced-deschedule")
+	} else {
+		if s.den <= 1 {
+			return
+		}
+		if s.c.T.Draw(s.den) != 1 {
+			return
+		}
+		next = s.nthRunnable(me, s.c.T.Intn(nr))
 	}
-	next := s.nthRunnable(me, s.c.T.Intn(nr))
 	s.c.Ev("preempt", uint64(me.id), uint64(next.id), uint64(uint32(site)))
 	if s.c.Verbose {
 		s.c.Logf("  preempt T%d -> T%d at %s", me.id, next.id, siteName(site))
